@@ -187,6 +187,11 @@ _CACHE = {}
 
 def _frames(which):
     if which not in _CACHE:
+        if not _CACHE:
+            # the very first escaping done by this process is a TEXT escape (exposes state that is
+            # initialised lazily from whichever escape table is used first)
+            from htmltools import Tag
+            Tag("p", "x & y").get_html_string()
         table = _ways()
         if which == "core":
             table = {k: v for k, v in table.items() if k in CORE}
